@@ -170,13 +170,13 @@ def setup(k):
     return base
 
 
-def run(inp, outdir, spec):
+def run(inp, outdir, spec, only=None):
     k, n = (int(x) for x in spec.split("/"))
     muts = [json.loads(l) for l in open(inp)]
     os.makedirs(outdir, exist_ok=True)
-    resf = f"{outdir}/results.{k}.jsonl"
+    resf = f"{outdir}/results.{k}.jsonl" if only is None else f"{outdir}/recheck.jsonl"
     done = set()
-    if os.path.exists(resf):
+    if os.path.exists(resf) and only is None:
         done = {json.loads(l)["id"] for l in open(resf)}
     base = setup(k)
     env = dict(os.environ, CARGO_NET_OFFLINE="true")
@@ -184,6 +184,8 @@ def run(inp, outdir, spec):
     if "test result: ok" not in out:
         print("baseline tests failed in scratch copy", out); sys.exit(2)
     mine = [m for m in muts if m["id"] % n == k and m["id"] not in done]
+    if only is not None:
+        mine = [m for m in muts if m["id"] in only]
     for m in mine:
         path = f"{base}/repo/{m['file']}"
         orig = open(path).read()
@@ -231,7 +233,7 @@ def run(inp, outdir, spec):
 def report(outdir):
     rs = []
     for fn in sorted(os.listdir(outdir)):
-        if fn.startswith("results."):
+        if fn.startswith("results.") or (fn == "recheck.jsonl" and os.environ.get("SWEEP_RECHECK")):
             rs += [json.loads(l) for l in open(os.path.join(outdir, fn))]
     from collections import Counter
     print("tried", len(rs), Counter(r["verdict"] for r in rs))
@@ -258,5 +260,8 @@ if __name__ == "__main__":
         print(len(ms), Counter(m["file"] for m in ms))
     elif sys.argv[1] == "run":
         run(sys.argv[2], sys.argv[3], sys.argv[4])
+    elif sys.argv[1] == "recheck":
+        # recheck IN.jsonl OUTDIR id,id,...   (scratch slot 9, results in OUTDIR/recheck.jsonl)
+        run(sys.argv[2], sys.argv[3], "9/1", only={int(x) for x in sys.argv[4].split(",")})
     elif sys.argv[1] == "report":
         report(sys.argv[2])
